@@ -85,6 +85,23 @@ CHECKS["C08"] = dict(
   text="For every building schema of the C06 universe: seeded valid documents (optional subsets, null where allowed, additional properties, undeclared extras on silent schemas, discriminator set to the variant's tag) must decode and re-encode to an equivalent document (key order ignored, extras kept under explicit additionalProperties); every mutant that drops one required key or swaps one declared property to another JSON type must be rejected with an error naming the property.",
   note=CODEC_NOTE + " null for a non-nullable property is not judged; type swaps are between distinct JSON types only.")
 
+WIRE_NOTE = "Domain restrictions of DESIGN §4 C09 / §11 (path values non-empty and '/'-free, arrays non-empty, header values visible ASCII, times as instants, finite floats). The client is NewClient(origin + normalised base path, HTTPClient); the HTTPClient records the wire request and serves a fresh server-side copy through API.ServeHTTP in-process. Operations whose generated code does not build are excluded by the pre-flight and counted. Lexical spaces by strconv / time.Parse; TLC and the reflective driver are trusted."
+CHECKS["C09"] = dict(
+  level="model_checking", design="§4 C09, spec/Wire.tla (WireValid), spec/Params.tla, spec/Codec.tla, spec/Trace_Wire.tla",
+  technique="calls through the real generated Client against the real generated server; the wire request validated by a TLA+ request validator (Wire.WireValid = Router.Match + Params.Failing + Codec.Valid) and parsed = sent judged by TLC (Trace_Wire)",
+  text="Seeded operations (typed path parameters, query parameters incl. arrays, header parameters, JSON / raw / no body; rotating base-path forms) are called with seeded boundary values: reserved URL and header characters, extreme numbers, zoned times, empty optional strings, multi-element arrays. TLC checks that the request on the wire is valid for the operation (method, template match beneath the base path, required parameters present, every lexeme in its type's space, no undeclared query keys, body valid for its schema) and that the handler's Parse() value equals the value sent, field by field, unset staying unset.",
+  note=WIRE_NOTE)
+CHECKS["C10"] = dict(
+  level="model_checking", design="§4 C10, spec/Wire.tla (ClientOutcome), spec/MC_Wire.tla, spec/Trace_Wire.tla",
+  technique="TLA+ model of the client's status dispatch checked by TLC (MC_Wire); seeded response values returned by the real handler and reconstructed by the real client; equality and the default/error rule judged by TLC (Trace_Wire)",
+  text="For every operation of the response matrix (1-4 responses from {200,201,404,default}, inline / component / alias, typed required and optional headers incl. arrays, JSON / raw / no body) the handler returns a seeded value of a seeded documented response type; the client's return value must be of the same type with equal code, headers and body. Every undocumented status among {200,201,202,302,404,418,500} reaches the client through a real default response carrying that code (must come back as the default type with that code) or, when no default is declared, as an injected response (must be an error).",
+  note=WIRE_NOTE + " Default status codes are drawn from 200..499.")
+CHECKS["C02"] = dict(
+  level="model_checking", design="§4 C02, spec/Wire.tla (WriteOK, Documented), spec/Trace_Wire.tla",
+  technique="static half: reflection over every package-level named type against each operation's response interface; dynamic half: what the real Write put on the wire (status, Content-Type, header names, body) judged by TLC (Trace_Wire.ServerDone with Wire.WriteOK and Codec.Valid)",
+  text="Static: for every operation of every generated package the number of distinct concrete types implementing its response interface equals the number of response identities the spec documents for it (inline per status, component responses through alias chains, a shared component counted once) - nothing else satisfies the interface. Dynamic: every seeded response value returned by a handler is written with a documented status (the caller's code for default), the documented Content-Type, exactly the declared header names with required ones present, and a body valid for the declared schema.",
+  note=WIRE_NOTE + " Response identity by behaviour and type identity; header values and bodies are compared for equality by C10.")
+
 NOT_YET = {}
 
 def main():
